@@ -298,3 +298,26 @@ def collects(func: Func) -> List[Collect]:
                          if cfg.node_containing(t) is not None and cfg.dominates(hdr, cfg.node_containing(t)) and cfg.node_containing(t) is not hdr]
                 out.append(Collect(n, elt, n.target, n.iter, conds, acc, 'loop'))
     return out
+
+
+_POS = {ast.NotIn: ast.In, ast.IsNot: ast.Is, ast.NotEq: ast.Eq}
+
+
+def norm_cond(test: ast.AST, pol: bool) -> Tuple[ast.AST, bool]:
+    """(positive core test, polarity): `not x`, `a not in b`, `a is not b`, `a != b` are rewritten to their positive form"""
+    while isinstance(test, ast.UnaryOp) and isinstance(test.op, ast.Not):
+        test, pol = test.operand, not pol
+    if isinstance(test, ast.Compare) and len(test.ops) == 1 and type(test.ops[0]) in _POS:
+        t2 = ast.Compare(left=test.left, ops=[_POS[type(test.ops[0])]()], comparators=test.comparators)
+        ast.copy_location(t2, test)
+        return t2, not pol
+    return test, pol
+
+
+def cond_is(test: ast.AST, pol: bool, pattern: str, want: bool = True, binds=None):
+    """does the condition (test with polarity) say `pattern` (a positive pattern such as "$x in $l") with truth value want"""
+    t, p = norm_cond(test, pol)
+    m = match(pattern, t, binds)
+    if m is not None and p == want:
+        return m
+    return None
